@@ -690,3 +690,275 @@ var _ = late(func() {
 		&Rule{ID: "C10.signal-channels-fixed", Floor: 2, Clause: "the close-only signal channels of the pipe's halves (senderDone, streamDone) are stored only while the halves are constructed", Run: ruleSignalChannelsFixed},
 		&Rule{ID: "C10.ctx-err-only-after-done", Floor: 3, Clause: "Send, TrySend and pipeStream.Next return ctx.Err() only inside a <-ctx.Done() arm or under a test that it is non-nil", Run: ruleCtxErrOnlyAfterDone})
 })
+
+// fresh-batch-after-handover (C11-r7m3): once a batch has been handed to the consumer it belongs to the consumer: the batcher
+// starts the next batch in a NEW allocation (or nil). Continuing in the spare capacity of the slice just handed out
+// (batch = batch[len(batch):]) makes the consumer's slice and the batch under construction share an array - an append by the
+// consumer overwrites the next batch's first items.
+func ruleFreshBatchAfterHandover(c *Ctx, r *R) {
+	_, _, bi := batchClosures(c)
+	if bi == nil {
+		r.undecided("stream.BatchFunc|batcher", token.NoPos, "batcher goroutine not found")
+		return
+	}
+	n := 0
+	for _, g := range bi.all {
+		for _, op := range chanOpsOf(g) {
+			sel, ok := op.in.(*ssa.Select)
+			if !ok {
+				continue
+			}
+			for i, a := range op.arms {
+				if !a.send || fieldOfChan(a.ch) != "batchC" {
+					continue
+				}
+				bv := loadVar(sel.States[i].Send)
+				if !bv.ok() {
+					continue
+				}
+				// stores to the batch variable that can follow this hand-over before the next append
+				for _, st := range storesToVar(bv) {
+					if st.Parent() != g || !(st.Block() == a.body || (a.body != nil && reaches(a.body, st.Block())) || reaches(sel.Block(), st.Block())) {
+						continue
+					}
+					n++
+					good := true
+					why := ""
+					for _, lf := range cellLeaves(st.Val, nil, 0) {
+						switch x := lf.v.(type) {
+						case *ssa.MakeSlice:
+						case *ssa.Const:
+							if x.Value != nil {
+								good, why = false, path(x)
+							}
+						default:
+							good, why = false, path(lf.v)
+						}
+					}
+					r.ok(good, "stream.BatchFunc|batch-after-handover#"+itoa(n), st.Pos(), "after a batch was handed to the consumer the next one is started in "+why+" instead of a new allocation: the consumer's slice and the pending batch share a backing array (an append by the consumer overwrites items of the next batch)")
+				}
+			}
+		}
+	}
+	if n == 0 {
+		r.undecided("stream.BatchFunc|batch-after-handover", token.NoPos, "no assignment to the batch after a hand-over found")
+	}
+}
+
+// merge-defer-order (C12-r7m3): in a worker of stream.Merge the deferred calls run, at exit, in this order: the last-one-out
+// accounting (which ends the merged stream), then the Close of the worker's input, then wg.Done(). The merged End therefore
+// does not wait for any input's Close. Registered the other way round, End is reported only after every input's Close has
+// returned - a Close that waits for something the consumer does after End never returns.
+func ruleMergeDeferOrder(c *Ctx, r *R) {
+	bi := bgAnalyse(c, "stream.Merge")
+	if bi == nil || len(bi.spawned) == 0 {
+		r.undecided("stream.Merge|workers", token.NoPos, "worker goroutines not found")
+		return
+	}
+	for _, w := range bi.spawned {
+		var closeD, acctD *ssa.Defer
+		instrs(w, func(b *ssa.BasicBlock, _ int, in ssa.Instruction) {
+			d, ok := in.(*ssa.Defer)
+			if !ok {
+				return
+			}
+			if d.Call.IsInvoke() && d.Call.Method.Name() == "Close" && streamKind(d.Call.Value.Type()) != 0 {
+				closeD = d
+				return
+			}
+			// the accounting: a deferred function (literal or helper) that can close the pipe's sender
+			if cal := staticCallee(&d.Call); cal != nil && cal.Blocks != nil {
+				for _, di := range deepInstrs(cal, 2) {
+					if call, ok := di.in.(*ssa.Call); ok {
+						if cc := staticCallee(&call.Call); cc != nil && fname(cc) == "Close" && cc.Signature.Recv() != nil && isNamedTypeDeep(cc.Signature.Recv().Type(), "stream", "PipeSender") {
+							acctD = d
+						}
+					}
+				}
+			}
+		})
+		if closeD == nil || acctD == nil {
+			r.undecided("stream.Merge|defers", w.Pos(), "the deferred Close of the input / the deferred last-one-out accounting were not found")
+			continue
+		}
+		good := closeD.Block() == acctD.Block() && idxIn(closeD) < idxIn(acctD)
+		r.ok(good, "stream.Merge|accounting-before-input-close", acctD.Pos(), "the last-one-out accounting must be deferred AFTER the input's Close (so that it runs before it): otherwise the merged stream's end waits for every input's Close to return")
+	}
+}
+
+// bg-ctx-arm-returns-err (C14-r7m2): a MapStream goroutine that gives up because the group's context ended (it drops a result
+// it could not hand over, or stops reading the source) returns the context's error from that arm. Returning nil makes the
+// group finish "cleanly": when the caller's context is cancelled after the source was read to its end, Next reports End with
+// results missing.
+func ruleBgCtxArmReturnsErr(c *Ctx, r *R) {
+	bi := bgAnalyse(c, "parallel.MapStream")
+	if bi == nil {
+		r.undecided("parallel.MapStream|goroutines", token.NoPos, "goroutines not found")
+		return
+	}
+	n := 0
+	for _, g := range bi.all {
+		if !lastIsError(g.Signature) {
+			continue
+		}
+		for _, op := range chanOpsOf(g) {
+			if op.kind != "select" {
+				continue
+			}
+			for _, a := range op.arms {
+				if a.send || a.kind != "ctx-done" || a.body == nil {
+					continue
+				}
+				for _, b := range g.Blocks {
+					if b != a.body && !a.body.Dominates(b) {
+						continue
+					}
+					ret, ok := b.Instrs[len(b.Instrs)-1].(*ssa.Return)
+					if !ok || len(ret.Results) == 0 {
+						continue
+					}
+					n++
+					r.ok(isCtxErrAfterDone(returnedValue(ret, len(ret.Results)-1)), "parallel.MapStream|"+c.nameOf(g)+"|ctx-arm-return#"+itoa(n), retPos(ret), "a goroutine of MapStream leaves through its <-ctx.Done() arm without returning ctx.Err(): the errgroup records no error, and Next reports a clean End although results were dropped")
+				}
+			}
+		}
+	}
+	if n == 0 {
+		r.undecided("parallel.MapStream|ctx-arms", token.NoPos, "no ctx.Done() arm with a return found in MapStream's goroutines")
+	}
+}
+
+// default-covers-negatives (C14-r7m3): "parallelism <= 0 means GOMAXPROCS" - the test that installs the default must be true for
+// every non-positive value. `== 0` lets a negative value through: no worker is started and nothing ever receives.
+func ruleDefaultCoversNegatives(c *Ctx, r *R) {
+	for _, name := range []string{"parallel.MapIterator", "parallel.MapStream"} {
+		fn := c.fn(name)
+		if fn == nil {
+			r.undecided(name+"|missing", token.NoPos, "function not found")
+			continue
+		}
+		n := 0
+		for _, p := range fn.Params {
+			if !isIntType(p.Type()) {
+				continue
+			}
+			isRaw := func(v ssa.Value) bool {
+				v = resolveVal(v)
+				if v == ssa.Value(p) {
+					return true
+				}
+				// a load of the spill cell before any other store reaches it is still the raw value: accept any load of the
+				// parameter's own cell (the defaulting assignment is what the test guards)
+				if ld, ok := v.(*ssa.UnOp); ok && ld.Op == token.MUL {
+					if cell := cellOf(ld.X); cell != nil {
+						for _, st := range storesTo(cell) {
+							if st.Val == ssa.Value(p) {
+								return true
+							}
+						}
+					}
+				}
+				return false
+			}
+			for _, g := range withAnon(fn) {
+				instrs(g, func(_ *ssa.BasicBlock, _ int, in ssa.Instruction) {
+					bin, ok := in.(*ssa.BinOp)
+					if !ok {
+						return
+					}
+					x, y, op := bin.X, bin.Y, bin.Op
+					if isRaw(y) {
+						x, y, op = y, x, flip(op)
+					}
+					if !isRaw(x) {
+						return
+					}
+					k, isK := y.(*ssa.Const)
+					if !isK || k.Value == nil {
+						return
+					}
+					if op != token.EQL && op != token.NEQ {
+						return
+					}
+					if !isConstInt(y, 0) {
+						return
+					}
+					n++
+					r.violated(name+"|"+p.Name()+"-default-test#"+itoa(n), bin.Pos(), p.Name()+" is tested against 0 by "+op.String()+": the documented default applies to every value <= 0, a negative argument is not replaced and (for parallelism) no worker is ever started")
+				})
+			}
+		}
+		if n == 0 {
+			r.discharged(name+"|default-tests", fn.Pos(), "no equality test of an int parameter against 0")
+		}
+	}
+}
+
+// gen-only-incremented (C15-r7m3): the modification counter of a container only ever goes up. Any other store - in particular
+// replacing the whole container value (*d = Deque[T]{}) - rewinds it, and a history of the right length brings it back to the
+// value a live iterator recorded: the iterator then reads the refilled buffer as if nothing had happened.
+func ruleGenOnlyIncremented(c *Ctx, r *R) {
+	for _, t := range []struct{ rel, typ string }{{"container/deque", "Deque"}, {"internal/heap", "Heap"}} {
+		n := 0
+		for _, fn := range c.funcsOfPkg(t.rel) {
+			name := c.nameOf(fn)
+			instrs(fn, func(_ *ssa.BasicBlock, _ int, in ssa.Instruction) {
+				st, ok := in.(*ssa.Store)
+				if !ok {
+					return
+				}
+				// a store to the gen field
+				if fa, ok := st.Addr.(*ssa.FieldAddr); ok && isNamedType(fa.X.Type(), t.rel, t.typ) && fieldName(fa.X.Type(), fa.Field) == "gen" {
+					if _, fresh := resolveVal(fa.X).(*ssa.Alloc); fresh {
+						// a value under construction: fine when it carries the old counter on (checked at the whole-value store)
+						return
+					}
+					n++
+					r.ok(isFieldIncDec(st, "gen", +1), name+"|gen-store#"+itoa(n), st.Pos(), "the modification counter is assigned something other than gen + 1: a counter that can go back makes a modified container look unmodified to a live iterator")
+					return
+				}
+				// the whole container replaced through its pointer
+				if pt, ok := st.Addr.Type().Underlying().(*types.Pointer); ok && isNamedType(pt.Elem(), t.rel, t.typ) {
+					if _, isAlloc := st.Addr.(*ssa.Alloc); isAlloc {
+						return // initialising a local / the constructor's result
+					}
+					if _, isParam := resolveVal(st.Addr).(*ssa.Parameter); !isParam {
+						return
+					}
+					n++
+					// the new value's gen must derive from the old one
+					carried := false
+					if ld, ok := st.Val.(*ssa.UnOp); ok && ld.Op == token.MUL {
+						if al, ok := ld.X.(*ssa.Alloc); ok {
+							for _, ref := range refsOf(al) {
+								if fa, ok := ref.(*ssa.FieldAddr); ok && fieldName(fa.X.Type(), fa.Field) == "gen" {
+									for _, r2 := range refsOf(fa) {
+										if s2, ok := r2.(*ssa.Store); ok && dependsOnField(s2.Val, "gen", 0) {
+											carried = true
+										}
+									}
+								}
+							}
+						}
+					}
+					r.ok(carried, name+"|whole-value-store#"+itoa(n), st.Pos(), "the whole "+t.typ+" is replaced and its modification counter is not carried over from the old value: the counter restarts, and after the right number of operations equals what a live iterator recorded")
+				}
+			})
+		}
+		if n == 0 {
+			r.undecided(t.rel+"."+t.typ+"|gen-stores", token.NoPos, "no store to the modification counter found")
+		}
+	}
+}
+
+var _ = late(func() {
+	properties["C11"].Rules = append(properties["C11"].Rules,
+		&Rule{ID: "C11.fresh-batch-after-handover", Floor: 1, Clause: "after a batch was sent on batchC the batch variable is assigned only a new allocation (make) or nil - never a reslice of the slice that was handed out", Run: ruleFreshBatchAfterHandover})
+	properties["C12"].Rules = append(properties["C12"].Rules,
+		&Rule{ID: "C12.merge-defer-order", Floor: 1, Clause: "in stream.Merge's workers the last-one-out accounting (which closes the pipe's sender) is deferred after - and therefore runs before - the Close of the worker's input", Run: ruleMergeDeferOrder})
+	properties["C14"].Rules = append(properties["C14"].Rules,
+		&Rule{ID: "C14.bg-ctx-arm-returns-err", Floor: 2, Clause: "every return inside a <-ctx.Done() arm of MapStream's goroutines yields ctx.Err() (a goroutine that drops work because the context ended reports it to the errgroup)", Run: ruleBgCtxArmReturnsErr},
+		&Rule{ID: "C14.default-covers-negatives", Floor: 2, Clause: "MapIterator / MapStream never test a raw int parameter (parallelism, bufferSize) against 0 by == or != (the documented defaults apply to every value <= 0)", Run: ruleDefaultCoversNegatives})
+	properties["C15"].Rules = append(properties["C15"].Rules,
+		&Rule{ID: "C15.gen-only-incremented", Floor: 8, Clause: "every store to the modification counter of Deque / internal/heap.Heap is gen + 1, and a whole-value replacement through the receiver carries the old counter over", Run: ruleGenOnlyIncremented})
+})
